@@ -39,7 +39,8 @@ CLAIMED = {
         "rewriting leaves unchanged, the emitted expressions evaluate the value exactly once and first, then each target's object and "
         "index, targets left to right; C07_augassign_name/attr/sub_order - for every operator, target object (and index) once, then "
         "the value, the store re-using the saved object/index; C07_def_order - any decorators and defaults: decorators top-down, then "
-        "positional, then keyword-only defaults, once each. Destructuring targets, class headers, loop/if headers, return values, call "
+        "positional, then keyword-only defaults, once each; C07_class_header_order - the bases, then the keywords in the order written "
+        "(`metaclass=` among them), once each. Destructuring targets, the rest of class statements, loop/if headers, return values, call "
         "arguments and all other forms are decided by ordered probe logs (templates for every form in the property's list plus random "
         "probe programs in which every operation on a probe value is logged) under the configurations - support, not theorem. "
         "Two known findings (class decorators evaluated late; annotations not evaluated).",
